@@ -470,6 +470,23 @@ func child(casesPath, outPath, slotPath, disabledJSON string) {
 		}
 	}
 	mark("propagate+late", t)
+	// ---- 8. sequences of blocks (last: a call that never returns leaves the node unusable)
+	t = time.Now()
+	seqOutcomes := map[string]int{}
+	if e := byName["consensus.process-sequence"]; e != nil && on("cross") {
+	seq:
+		for a := 0; a < 6; a++ {
+			for c := 0; c < 7; c++ {
+				res := r.Call(e, []byte{byte(a), byte(c)}, "block-sequence", false)
+				seqOutcomes[res]++
+				if strings.HasPrefix(res, "hang") || strings.HasPrefix(res, "panic") {
+					break seq
+				}
+			}
+		}
+	}
+	info["block_sequences"] = seqOutcomes
+	mark("sequences", t)
 
 	rep := r.report()
 	rep.Errors = errs
